@@ -126,6 +126,10 @@ class App:
         Returns the list of datagrams (src, dst, payload) emitted while handling."""
         src = src or self.l1_addr(t, "ctrl")
         data = raw if raw is not None else text.encode() + b"\0"
+        # datagrams that reached this socket earlier (e.g. a reply another transceiver sent to an address that
+        # happens to be this socket) would have been consumed by the select loop by now
+        for _ in range(len(t.ctrl_if.sock.rxq)):
+            t.ctrl_if.handle_rx()
         self.net.take()
         self.net.inject(t.ctrl_if.sock, data, src)
         t.ctrl_if.handle_rx()
@@ -141,6 +145,8 @@ class App:
     def data(self, t, payload, src=None):
         """deliver a TRXD datagram to t's DATA socket"""
         src = src or self.l1_addr(t, "data")
+        for _ in range(len(t.data_if.sock.rxq)):
+            t.recv_data_msg()
         self.net.inject(t.data_if.sock, payload, src)
         return t.recv_data_msg()
 
